@@ -1069,6 +1069,7 @@ def execute(sim, plan):
     world.setup_sim(sim)
     root = os.path.join(os.environ["VERIF_SCRATCH"], "t")
     T.relativise_log(sim, root)
+    T.mask_content_names(sim)
     guards = guards_of(plan)
     tree = T.make_tree(sim, "bzr", "t")
     model = T.MTree("bzr")
